@@ -11,6 +11,12 @@ def sha(b):
     return hashlib.sha256(b).hexdigest() if b is not None else None
 
 
+def quic_dgram_len(conn, dg):
+    from .. import quicpeer
+    _, info = quicpeer.build_units(conn)
+    return info["dgrams"][dg]
+
+
 class C18(Prop):
     id = "C18"
     level = "exploration"
@@ -24,7 +30,7 @@ class C18(Prop):
              "quic_world", "quic_zero_len_cid", "output_nonempty", "output_path_reused",
              "sslkeylogfile_in_environment_without_s", "quic_connection_ids_of_different_lengths",
              "earlier_run_with_other_port_map", "cli_subprocess_optimised", "after_aborted_run",
-             "earlier_run_really_aborted"]
+             "earlier_run_really_aborted", "client_port_also_a_server_port", "quic_datagram_shorter_than_hp_sample"]
 
     def plan(self, tier):
         p = super().plan(tier)
@@ -41,6 +47,28 @@ class C18(Prop):
         spec["prop"] = "C18"
         spec["cli"] = random_cli(R.fork("cli"), [c for c in spec["conns"] if c["proto"] in ("tls", "quic")],
                                  allow=("p", "m", "a", "c"))
+        BP = R.fork("bothports")
+        tl = [c for c in spec["conns"] if c["proto"] == "tls"]
+        if tl and BP.chance(25):
+            # both ports of a connection are "server ports" (the client's ephemeral port is listed with -p): which side is
+            # the server must not depend on anything but the capture and the options
+            v = BP.choice(tl)
+            spec["cli"].setdefault("p", [])
+            spec["cli"]["p"] = list(spec["cli"]["p"]) + [v["c"]["port"]]
+            spec["client_port_listed"] = True
+        RT = R.fork("runt")
+        qs = [c for c in spec["conns"] if c["proto"] == "quic"]
+        if qs and RT.chance(30):
+            # one 1-RTT datagram of a QUIC connection arrives cut down to fewer bytes than a header protection sample
+            ex_ = world.expand(spec)
+            v = RT.choice(qs)
+            t_ = [x for x in ex_["truth"]["conns"] if x["id"] == v["id"]][0]
+            cand = [f for f in t_["frames"] if t_["dmeta"][f["dg"]]["pk"] and t_["dmeta"][f["dg"]]["pk"][0]["kind"] == "1rtt"]
+            if cand:
+                f = RT.choice(cand)
+                ln = len(quic_dgram_len(v, f["dg"]))
+                spec["faults"] = [{"k": "shorten", "i": f["i"], "n": max(1, ln - RT.range(3, 20))}]
+                spec["runt_datagram"] = True
         if R.chance(50):
             other = gen.gen_mixed_world(R.fork("other"), cfg, nconn=R.range(1, 2))
         else:
@@ -89,6 +117,10 @@ class C18(Prop):
         if len(ref.out) > 200:
             out.nontrivial = True
             out.count("reach:output_nonempty")
+        if spec.get("client_port_listed"):
+            out.count("reach:client_port_also_a_server_port")
+        if spec.get("runt_datagram"):
+            out.count("reach:quic_datagram_shorter_than_hp_sample")
         for c in spec["conns"]:
             if c["proto"] == "quic":
                 out.count("reach:quic_world")
